@@ -64,6 +64,13 @@ def run(ck):
             continue
         if o.get("error"):
             raise vlib.Infra("api driver: %s" % o["error"])
+        if not o["ok"] and o.get("final"):
+            ck.violation("api-state:%s:%s" % (c["src"], last["op"]),
+                         "script %s: after the history the %s is %s, the model says %s; history: %s" % (
+                             c["src"], o["final"], json.dumps(o["got"])[:300], json.dumps(o["want"])[:300],
+                             " ".join("%s%s" % (x["op"], json.dumps(x["args"])) for x in c["calls"]))[:900],
+                         {"case": c, "real": o})
+            continue
         if not o["ok"]:
             call = c["calls"][o["at"]]
             ck.violation("api:%s:%s" % (c["src"], call["op"]),
